@@ -67,6 +67,11 @@ pub assume_specification[ <Version as Ord>::cmp ](a: &Version, b: &Version) -> (
 pub assume_specification[ Ordering::is_lt ](o: Ordering) -> (b: bool)
     ensures b == (o == Ordering::Less);
 
+// Version's Hash/Eq are lawful (assumed: deno_semver derives them), so it is a valid hash key
+pub proof fn axiom_version_key_model()
+    ensures vstd::std_specs::hash::obeys_key_model::<Version>(),
+{ admit(); }
+
 // ---- VersionReq::matches: a deterministic predicate of (req, version)
 pub uninterp spec fn req_matches(r: VersionReq, v: Version) -> bool;
 
@@ -91,6 +96,11 @@ pub open spec fn date_lt(a: Date, b: Date) -> bool { date_cmp(a, b) == Some(Orde
 
 // ---- PackageName (deno_semver StackString): text and prefix test
 pub uninterp spec fn pn_text(n: PackageName) -> Seq<char>;
+
+// PackageName's Ord is lawful (assumed), so it is a valid BTreeSet key
+pub proof fn axiom_package_name_order()
+    ensures vstd::laws_cmp::obeys_cmp_spec::<PackageName>(),
+{ admit(); }
 
 pub assume_specification[ PackageName::as_str ](n: &PackageName) -> (s: &str)
     ensures s@ == pn_text(*n);
